@@ -145,7 +145,7 @@ pub fn ref_stream(ctx: &DefCtx, src: &[u8], from: usize) -> RefStream {
                 match expected_outcome(def, leaf, h, text) {
                     Outcome::Emit { v, payload } => rs.items.push(Item { ok: true, v, payload, err: 0, start: pos, end: item_end }),
                     Outcome::DefaultError => {
-                        let code = if def.error == ErrKind::CustomCb { err_fromcb_code(pos, item_end) } else { ERR_DEFAULT };
+                        let code = if matches!(def.error, ErrKind::CustomCb | ErrKind::CustomCbInline) { err_fromcb_code(pos, item_end) } else { ERR_DEFAULT };
                         rs.items.push(Item { ok: false, v: 0, payload: 0, err: code, start: pos, end: item_end })
                     }
                     Outcome::Error(code) => rs.items.push(Item { ok: false, v: 0, payload: 0, err: code, start: pos, end: item_end }),
@@ -154,7 +154,7 @@ pub fn ref_stream(ctx: &DefCtx, src: &[u8], from: usize) -> RefStream {
                 pos = item_end;
             }
             Attempt::Error { end, .. } => {
-                let code = if def.error == ErrKind::CustomCb { err_fromcb_code(pos, end) } else { ERR_DEFAULT };
+                let code = if matches!(def.error, ErrKind::CustomCb | ErrKind::CustomCbInline) { err_fromcb_code(pos, end) } else { ERR_DEFAULT };
                 rs.items.push(Item { ok: false, v: 0, payload: 0, err: code, start: pos, end });
                 pos = end;
             }
